@@ -48,6 +48,10 @@ const cstl_STRING_char_t * STRF(str, const struct cstl_STRING * const s)
 /*! @private */
 static void STRF(__resize, struct cstl_STRING * const s, const size_t n)
 {
+    if (n == SIZE_MAX) {
+        /* no room for the terminator */
+        abort();
+    }
     cstl_vector_resize(&s->v, n + 1);
     *STRF(__at, s, n) = STRV(nul);
 }
